@@ -25,8 +25,9 @@ META = dict(
              'x 2 directory-listing orders) that the transcription of jedi\'s walk (in-place pruning, accumulated '
              'except sets, startswith test, Path-vs-str membership), regex pre-filter with parse/open limits, '
              'search_in_module matching, sys.path phase and de-duplication reports every expected definition / '
-             'module and nothing from ignored places, modulo three named deviation shapes whose TLC counterexamples '
-             'are materialised and confirmed on the real code.  A TLC-emitted slice of trees is written to disk and '
+             'module and nothing from ignored places; the three deviations found by this check (DEV1/2/4) are repaired '
+             'in the code and in the Design, the what-if Designs with the old behaviour must still fail their strict '
+             'invariant and those counterexample trees must now be answered correctly by the real code.  A TLC-emitted slice of trees is written to disk and '
              'Project.search / complete_search / Script.search results must equal the model (both listing orders, '
              'os.scandir order controlled); all recorded calls on these trees, on trees with a patched parse limit '
              'and on random trees (<=30 and >30 files, all always-ignored names, several .gitignore levels, real '
@@ -58,18 +59,25 @@ CHECK_DEADLOCK FALSE
 '''
 
 # Deviations (DEV-n of Search.tla) that have been repaired in /repo: the Design then follows the patch.
-# Empty on the unchanged tree.  When a fix for a known finding is committed, add its name here and
-# set the entry in known_findings.d/C19.json to "fixed".
-FIXED = ()
+# DEV1 = 1c2063e (gitignore dir string prefix), DEV2 = 1b4ae41 (gitignored files), DEV4 = 7bc3039 (project
+# root in the sys.path phase).  VERIF_C19_FIXED=none|DEV1,DEV2,.. overrides (what-if on an older tree).
+FIXED = ('DEV1', 'DEV2', 'DEV4')
+DEV_OF = {'StrictComplete': 'DEV1', 'StrictNoIgnoredFile': 'DEV2', 'StrictNoSysPathLeak': 'DEV4'}
 
 KNOWN_SHAPES = ('missing:gitignore-dir-string-prefix', 'ignored-reported:gitignored-file',
                 'ignored-reported:root-module-via-syspath')
 
 
+def effective_fixed():
+    e = os.environ.get('VERIF_C19_FIXED')
+    if not e:
+        return tuple(FIXED)
+    return () if e == 'none' else tuple(x for x in e.split(',') if x)
+
+
 def write_cfg(ctx, name, tail, pool='quick', dirs=3, depth=2, files=1, gi=1, lines=1, plimit=30, mod=1, rem=0,
               fixed=None):
-    fixed = tuple(os.environ['VERIF_C19_FIXED'].split(',')) if os.environ.get('VERIF_C19_FIXED') else \
-        (FIXED if fixed is None else fixed)
+    fixed = effective_fixed() if fixed is None else fixed
     p = os.path.join(ctx.tmp, name)
     with open(p, 'w') as f:
         f.write(CFG % dict(pool=pool, dirs=dirs, depth=depth, files=files, gi=gi, lines=lines,
@@ -480,32 +488,48 @@ def run(ctx):
     # VERIF_C19_REDUCED=1: thorough structure with the quick bounds of the big runs (for busy machines)
     reduced = bool(os.environ.get('VERIF_C19_REDUCED'))
     small = quick or reduced
+    fixed = effective_fixed()
+    all_fixed = set(fixed) >= {'DEV1', 'DEV2', 'DEV4'}
     ctx.coverage['reduced_thorough'] = reduced and not quick
+    ctx.coverage['design_follows_fixes'] = sorted(fixed)
     main_bounds = dict(pool='quick', dirs=3, depth=2, files=1 if small else 2, gi=1, lines=1)
     strict = [('strict_prefix', 'StrictComplete', dict(pool='quick', dirs=3, depth=2, files=0, gi=1, lines=1)),
               ('strict_file', 'StrictNoIgnoredFile', dict(pool='quick', dirs=0, depth=2, files=1, gi=1, lines=1)),
               ('strict_syspath', 'StrictNoSysPathLeak', dict(pool='quick', dirs=1, depth=1, files=1, gi=1, lines=1))]
-    mod = 211 if quick else (97 if reduced else 211)
+    # quick: emission from the 2-directory space (10,752 trees); thorough: from the 3-directory space
+    emit_bounds = dict(pool='quick', dirs=2 if quick else 3, depth=2, files=1, gi=1, lines=1)
+    mod = 23 if quick else (97 if reduced else 23)
     wmod = 97 if reduced else 47
     lmod = 3 if quick else 5
-    emit_bounds = dict(main_bounds)
     wide_bounds = dict(pool='thorough', dirs=1 if reduced else 2, depth=2, files=1, gi=1, lines=1)
-    INV = 'INVARIANT DesignMeetsReferenceModuloKnown'
-    jobs = [('main', INV, 8 if quick else 12, main_bounds)]
+    # with every deviation repaired the full statement is checked, otherwise "modulo the open shapes"
+    INV = 'INVARIANT DesignMeetsReference' if all_fixed else 'INVARIANT DesignMeetsReferenceModuloKnown'
+    ctx.coverage['main_invariant'] = INV.split()[1]
+    jobs = [('main', INV, 12, main_bounds)]
     if not quick:
         jobs += [('main_wide', INV, 2, wide_bounds),
                  ('main_lines', INV, 2, dict(pool='thorough', dirs=1, depth=1, files=1, gi=1, lines=2)),
-                 ('emit_wide', 'CONSTRAINT Emit', 1, dict(wide_bounds, mod=wmod, rem=ctx.seed % wmod)),
-                 # the Design with the three proposed patches applied satisfies the full Reference
-                 ('main_fixed', 'INVARIANT DesignMeetsReference', 2,
-                  dict(pool='quick', dirs=3, depth=2, files=1, gi=1, lines=1, fixed=('DEV1', 'DEV2', 'DEV4')))]
-    jobs += [(n, 'INVARIANT ' + inv, 1, b) for n, inv, b in strict]
+                 ('emit_wide', 'CONSTRAINT Emit', 1, dict(wide_bounds, mod=wmod, rem=ctx.seed % wmod))]
+    # strict invariants: for a repaired deviation the invariant must hold with today's Design (checked in the
+    # small emission runs below) and a what-if run with the old behaviour of that deviation must still fail
+    # (the Reference is sensitive to it); for an open deviation the counterexample is expected as is.
+    hold_dirs, hold_small = [], []
+    for n, inv, b in strict:
+        dev = DEV_OF[inv]
+        if dev in fixed:
+            (hold_dirs if inv == 'StrictComplete' else hold_small).append('INVARIANT ' + inv)
+            jobs.append((n, 'INVARIANT ' + inv, 1, dict(b, fixed=tuple(x for x in fixed if x != dev))))
+        else:
+            jobs.append((n, 'INVARIANT ' + inv, 1, b))
     jobs += [('emit', 'CONSTRAINT Emit', 1, dict(emit_bounds, mod=mod, rem=ctx.seed % mod)),
-             ('emit_dirs', 'CONSTRAINT Emit', 1, dict(pool='quick', dirs=3, depth=2, files=0, gi=1, lines=1)),
-             ('emit_small', 'CONSTRAINT Emit', 1, dict(pool='quick', dirs=1, depth=1, files=1, gi=1, lines=1)),
+             ('emit_dirs', '\n'.join(['CONSTRAINT Emit'] + hold_dirs), 1,
+              dict(pool='quick', dirs=3, depth=2, files=0, gi=1, lines=1)),
+             ('emit_small', '\n'.join(['CONSTRAINT Emit'] + hold_small), 1,
+              dict(pool='quick', dirs=1, depth=1, files=1, gi=1, lines=1)),
              ('emit_limit', 'CONSTRAINT Emit\n' + INV, 1,
               dict(pool='limits', dirs=1, depth=1, files=3 if quick else 4, gi=0 if quick else 1, lines=1, plimit=2,
                    mod=lmod, rem=ctx.seed % lmod))]
+    ctx.coverage['bounds'] = {j[0]: j[3] for j in jobs}
     runs = {}
 
     def tlc(name, tail, workers, b):
@@ -523,29 +547,35 @@ def run(ctx):
     for n, r in runs.items():
         if isinstance(r, BaseException):
             raise r if isinstance(r, MachineryError) else MachineryError('TLC run %s failed: %r' % (n, r))
-    if 'main_fixed' in runs and not os.environ.get('VERIF_C19_FIXED'):
-        res = runs.pop('main_fixed')
-        ctx.add_tlc(res, 'repaired Design (Fixed = DEV1, DEV2, DEV4) |= Reference, no exceptions, exhaustive')
-        if res.violated:
-            raise MachineryError('Search.tla: the repaired Design violates the Reference: %s' % res.trace[-1:])
-        ctx.coverage['repaired_design_meets_reference'] = True
     for n in [k for k in runs if k.startswith('main')]:
         res = runs[n]
-        ctx.add_tlc(res, 'Design|=Reference modulo known shapes, exhaustive (%s: %s)' % (n, [j[3] for j in jobs if j[0] == n][0]))
+        ctx.add_tlc(res, '%s, exhaustive (%s: %s)' % (INV.split()[1], n, [j[3] for j in jobs if j[0] == n][0]))
         if res.violated:
-            raise MachineryError('Search.tla: the Design deviates from the Reference in a shape that is not a known '
-                                 'finding (%s); last state:\n%s' % (res.violated, res.trace[-1:]))
+            raise MachineryError('Search.tla: the Design deviates from the Reference (%s, not an open finding); '
+                                 'last state:\n%s' % (res.violated, res.trace[-1:]))
     if runs['main'].distinct < (50000 if small else 500000):
         raise MachineryError('vacuity: only %d states' % runs['main'].distinct)
     ctx.coverage['exhaustive'] = True
     ctx.log('main run: %d distinct states in %.0fs' % (runs['main'].distinct, runs['main'].wall))
 
-    # counterexamples of the strict invariants -> real directories (confirmation of the known shapes)
+    # strict invariants: held by today's Design where the deviation is repaired (part of emit_dirs / emit_small),
+    # violated by the what-if Design with the old behaviour; the counterexample trees go to the real code
+    for n in ('emit_dirs', 'emit_small'):
+        if runs[n].violated:
+            raise MachineryError('Search.tla: strict invariant %s is violated by the repaired Design: %s'
+                                 % (runs[n].violated, runs[n].trace[-1:]))
+    ctx.coverage['strict_invariants_hold'] = sorted(i.split()[1] for i in hold_dirs + hold_small)
     cex_cases = []
     for n, inv, b in strict:
         res = runs[n]
-        ctx.add_tlc(res, 'strict invariant %s (counterexample expected while the finding is open)' % inv)
+        whatif = DEV_OF[inv] in fixed
+        ctx.add_tlc(res, 'strict invariant %s %s' % (inv, 'on the what-if Design with the old behaviour of %s '
+                                                     '(must fail)' % DEV_OF[inv] if whatif else
+                                                     '(counterexample expected while the finding is open)'))
         if not res.violated:
+            if whatif:
+                raise MachineryError('sensitivity lost: %s holds although %s is switched back to the old behaviour'
+                                     % (inv, DEV_OF[inv]))
             ctx.notes.append('%s holds in the bounded model: the Design no longer has this deviation' % inv)
             continue
         st = res.trace[-1]['vars']
@@ -573,8 +603,8 @@ def run(ctx):
     rng = ctx.rng
     rng.shuffle(cs_dirs)
     rng.shuffle(cs_small)
-    extra = cs_dirs[:60 if quick else (200 if reduced else 1500)] + cs_small[:120 if quick else (200 if reduced else 896)]
-    if len(cs) < (200 if quick else (500 if reduced else 5000)):
+    extra = cs_dirs[:60 if quick else (200 if reduced else 1200)] + cs_small[:120 if quick else (200 if reduced else 896)]
+    if len(cs) < (200 if quick else (500 if reduced else 4000)):
         raise MachineryError('too few cases emitted: %d' % len(cs))
     allcases = [c for _, c in cex_emitted] + cs + extra
     ctx.log('replaying %d TLC trees (x %d queries x 2 listing orders + Script.search)' % (len(allcases), len(allcases[0]['preds'])))
@@ -626,7 +656,7 @@ def run(ctx):
     ctx.coverage['limit_trees_with_more_files_than_limit'] = nlimit_effective
 
     # 5. random larger trees (code -> spec)
-    nrand = 60 if quick else (150 if reduced else 700)
+    nrand = 60 if quick else (150 if reduced else 500)
     ctx.log('driving %d random trees' % nrand)
     rr = jutil.pmap(random_case, [(ctx.tmp, i, ctx.seed * 100003 + i, i % 10 == 9, 24 if quick else 40)
                                   for i in range(nrand)], chunksize=1)
@@ -655,20 +685,23 @@ def run(ctx):
     before = dict(ctx.known_hits)
     judge_all(ctx, 'Trace_Search', traces, infos)
 
-    # the strict counterexamples must have been confirmed by the real code (or the code was repaired)
+    # the counterexample trees on the real code: an open deviation must be reproduced, a repaired one must not
+    # (a reproduced repaired shape has already been raised as a VIOLATION by judge_all: fixed entries suppress nothing)
     shape_of = {'StrictComplete': KNOWN_SHAPES[0], 'StrictNoIgnoredFile': KNOWN_SHAPES[1],
                 'StrictNoSysPathLeak': KNOWN_SHAPES[2]}
     hit_keys = set(ctx.known_hits) | set(k for k, _, _ in ctx.violations)
     conf = {}
     for inv, _ in cex_emitted:
         r, info = confirmed[inv]
-        reproduced = any(shape_of[inv] == k or k.startswith(shape_of[inv]) for k in hit_keys)
+        reproduced = shape_of[inv] in hit_keys
+        repaired = DEV_OF[inv] in fixed
         conf[inv] = {'shape': shape_of[inv], 'tree': info['tree'], 'gitignore': info['gitignore'],
+                     'design': 'repaired (what-if counterexample)' if repaired else 'open deviation',
                      'reproduced_on_real_code': reproduced, 'model_vs_code_drift': len(r['drifts'])}
-        if not reproduced:
+        if not repaired and not reproduced:
             ctx.notes.append('counterexample of %s is not reproduced by the real code: the defect was repaired, '
-                             'update the Design (DEV comment) and known_findings.d/C19.json' % inv)
-    ctx.coverage['counterexamples_confirmed'] = conf
+                             'add %s to FIXED and set known_findings.d/C19.json to fixed' % (inv, DEV_OF[inv]))
+    ctx.coverage['counterexamples_on_real_code'] = conf
     del before
 
     # 7. binding self-test: corrupted records must be rejected
